@@ -274,6 +274,7 @@ def run_case(key):
         if np.isfinite(x):
             mx[name] = max(mx[name], float(x))
     singles = []  # (matrix, single-call output vector) of the first few frames
+    held = None
     for qn, Q in fr.items():
         T = T0 if qn == "cube00" else E.rotate4(T0, Q)
         M = E.to_voigt(T)
@@ -284,6 +285,8 @@ def run_case(key):
             out = _EC(np.array([M]))
             o = {k: float(out[k][0]) for k in ["bulk_modulus", "shear_modulus"] + PCT}
             ax = np.array(out["hexagonal_axis"][0], float)
+            if held is None:
+                held = (out, dict(o), ax.copy())  # the caller keeps its first result (no copy)
             if len(singles) < 4:
                 singles.append((M, np.array([o[k] for k in ["bulk_modulus", "shear_modulus"] + PCT] + list(ax))))
         except Exception as e:  # "for any stiffness matrix the reported ..." : must report
@@ -409,6 +412,17 @@ def run_case(key):
 
     res["states"] = len(fr)
     res["notes"].update(mx)
+    # the result the caller kept from its FIRST call is still what it was when it was returned
+    # (seed C12h: output arrays served from a cache keyed on the series length)
+    if held is not None:
+        count("held_result_unchanged")
+        try:
+            now = {k: float(held[0][k][0]) for k in held[1]}
+            axn = np.array(held[0]["hexagonal_axis"][0], float)
+            if not (all(now[k] == held[1][k] or (np.isnan(now[k]) and np.isnan(held[1][k])) for k in now) and np.array_equal(axn, held[2], equal_nan=True)):
+                V("held_result_unchanged", "first", {"kept_result_now": now, "as_returned": held[1]}, field="held")
+        except Exception as e:
+            V("held_result_unchanged", "first", {"exception": type(e).__name__}, field="held")
     # a stack of several matrices in one call must give, entry by entry, what each matrix
     # gives alone (no state carried from one entry of the stack to the next)
     if len(singles) >= 2:
